@@ -4,6 +4,7 @@ import (
 	"flag"
 	"os"
 	"strconv"
+	"strings"
 	"testing"
 
 	"pgregory.net/rapid"
@@ -103,7 +104,7 @@ func TestC06(t *testing.T) {
 	})
 }
 
-const ruleC09 = "generated scenario (family, device, target, front-end in {drc approve, drc -C, do-approve approve, do-approve compare}); a clean run fixes the number n of dialogue steps; then one fault (error text, unexpected output, garbled echo, connection close, stall, HTTP 5xx/4xx, malformed reply, status=error, failed commit job, non-zero exit status) at a drawn position k<n; " +
+const ruleC09 = "generated scenario (family, device, target, front-end in {drc approve, drc -C, do-approve approve, do-approve compare}); a clean run fixes the number n of dialogue steps; then one fault (error text, unexpected output, garbled echo, connection close, stall, HTTP 5xx/4xx, malformed reply, status=error, failed commit job, non-zero exit status) at a drawn position k<n or, in three of four cases, concentrated on a change step, on the first or second half of a two-command packet, or on the save step; " +
 	"non-trivial = the fault lands on a step the clean run reaches, on a step whose answer must be verified, and the scenario has >= 2 change commands; distinct = hash of scenario+kind+position"
 
 func TestC09(t *testing.T) {
@@ -115,9 +116,19 @@ func TestC09(t *testing.T) {
 		sc.Front = rapid.SampledFrom([]string{"drc", "do-approve"}).Draw(rt, "front")
 		sc.Verb = rapid.SampledFrom([]string{"approve", "approve", "compare"}).Draw(rt, "verb")
 		f := drawFault(rt, fam, 60, rapid.IntRange(0, 14).Draw(rt, "stallOK") == 0)
+		target := rapid.SampledFrom([]string{"", "change", "change", "joined1", "joined1", "joined1", "joined2", "save"}).Draw(rt, "target")
+		if strings.HasPrefix(target, "joined") && (fam == "asa" || fam == "ios") {
+			// Prefer a pair whose script has a two-command packet.
+			for i := 0; i < 12 && len(joinedSecond(sc)) == 0; i++ {
+				front, verb := sc.Front, sc.Verb
+				sc = genBase(rt, fam)
+				sc.Front, sc.Verb = front, verb
+			}
+		}
 		c := sc.Case("C09")
 		c.Params["kind"] = f.Kind
 		c.Params["kpos"] = strconv.Itoa(f.Pos)
+		c.Params["target"] = target
 		props.Judge(rt, ev, oracleC09, c, func() any { return map[string]any{"scenario": sc, "kind": f.Kind, "kpos": f.Pos} })
 	})
 }
